@@ -5,6 +5,18 @@ import json, pathlib
 ALL = [f'C{i:02d}' for i in range(1, 20)]
 
 CHECKS = {
+ 'C14': dict(
+   technique='Coq proof (strokes of the modelled start/linear/end sequences = documented figures; induction over ticks, passes, vertices, copies) + stroke-level differential on Marker.points',
+   text='Props/C14.v: for all positions, lengths, tick lists, extents, vertex lists and shifts the open-shutter strokes of the '
+        'modelled cross / ruler / meander / ablation / box are exactly the documented figures (two centred arms; one stroke per '
+        'distinct tick in increasing y from x_init to the absolute tick x; one stroke of floor(ext/delta)+1 alternating lines; '
+        'vertices in order plus four displaced copies; closed rectangle), np.unique is modelled by a proved sort_uniq. Tie to '
+        '/repo: every primitive is called with generated arguments (2-D and 3-D positions, unsorted repeated ticks, both '
+        'orientations and directions); femto\'s recorded trajectory is compared point by point with the model and the strokes '
+        'of its raw trajectory and of its points matrix with the model\'s strokes.',
+   note='Trusted: Coq kernel; exact-rational model vs float32 storage compared within 1e-5*(1+|v|); meander pass counts are '
+        'generated away from integer quotients.',
+   design='5/C14'),
  'C13': dict(
    technique='Coq proof over Q (ceiling arithmetic, nra) + differential on num_subdivisions and on the stored blocks of every curved primitive',
    text='Props/C13.v: for every rational length and step, n = ceil(len/dl) >= 2 uniform samples are more than one and at most '
